@@ -240,8 +240,9 @@ def _stepG_in_state(kind):
         else:       # beltHMACStepG2
             keep, glen = x.call("beltHMAC_keep", ret="z"), 1 + c["k"] % 32
             seq = lambda B: [("beltHMACStart", [B["state"], x.buf(expand(c["seed"] + "k", 20 + kl)), 20 + kl], "v"), ("beltHMACStepA", [x.buf(data), L, B["state"]], "v"), ("beltHMACStepG2", [B["mac"], glen, B["state"]], "v")]
+        # (the state is anchored to an unused 8-octet input only to get it into the arena, where the final value can be placed inside it)
         return dict(ins={"pad": b"\x11" * 8}, outs={"state": keep, "mac": glen}, call=lambda B: ("__seq__", seq(B), "v"),
-                    only_anchor={"state": ["__none__"], "mac": ["state"]}, check=["mac"], gap=PAD)
+                    only_anchor={"state": ["pad"], "mac": ["state"]}, check=["mac"], gap=PAD, align=1)
     return prep
 
 
@@ -475,8 +476,14 @@ def classify(ctx, fname, spec, pos, opos):
                     ctx.nontrivial(fname, k, a, "same", n)
 
 
+BIG_OK = {"beltCBCEncr", "beltCBCDecr", "beltCFBEncr", "beltCFBDecr", "beltCTR", "beltBDEEncr", "beltBDEDecr", "beltSDEEncr", "beltSDEDecr", "beltDWPWrap", "beltCHEWrap",
+          "beltDWPUnwrap", "beltCHEUnwrap", "beltKWPWrap", "beltKWPUnwrap", "beltMAC", "beltHash", "bashHash", "beltHMAC", "memMove", "memJoin"}
+
+
 def run_overlap(ctx, c):
     fname = c["fn"]
+    if c.get("big") and fname in BIG_OK:
+        c = dict(c, L=1000 + 37 * c["L"])       # data of 1000..4700 octets: internal chunking of long inputs meets the overlap
     spec0 = FUNCS[fname](ctx.x, c)
     ctx.x.reset()
     placement = {}
@@ -509,7 +516,7 @@ def run_overlap(ctx, c):
 
 S_OVER = st.fixed_dictionaries({
     "fn": st.sampled_from(sorted(FUNCS)), "L": st.one_of(st.sampled_from([0, 1, 15, 16, 17, 31, 32, 33, 47, 48, 49, 64, 65, 80]), st.integers(0, 100)),
-    "L2": st.integers(0, 48), "k": st.integers(0, 7), "seed": st.binary(min_size=1, max_size=3).map(bytes.hex),
+    "L2": st.integers(0, 48), "k": st.integers(0, 7), "seed": st.binary(min_size=1, max_size=3).map(bytes.hex), "big": st.sampled_from([0] * 11 + [1]),
     "pl": st.lists(st.one_of(st.none(), st.tuples(st.integers(0, 5), st.floats(0, 1), st.one_of(st.none(), st.integers(-20, 20)))), min_size=1, max_size=3),
     "lay": st.one_of(st.none(), st.lists(st.tuples(st.integers(0, 9), st.sampled_from([0, 0, 1, 3, 8, 16, 48])).map(list), min_size=1, max_size=5))})
 
